@@ -23,7 +23,8 @@
     successful statement in the events [es] of one run. *)
 From Coq Require Import List NArith Bool Arith.
 From Atlas Require Import Base.Bytes Base.Stutter Exec.ExecModel Exec.ExecProofs Exec.StepProofs
-  Exec.PendingModel Exec.PendingProofs Exec.RunModel Exec.TxModel Exec.TxProofs Exec.RunProofs.
+  Exec.PendingModel Exec.PendingProofs Exec.RunModel Exec.TxModel Exec.TxProofs Exec.RunProofs
+  Exec.ReuseModel Exec.ReuseProofs Exec.StoreModel Exec.StoreTxModel Exec.StoreTxProofs Exec.StoreTxDirProofs Exec.StoreTxAllProofs Exec.StoreTxCompleteProofs Exec.StoreTxOnceProofs Exec.StoreTxCompleteAllProofs.
 Import ListNotations.
 
 (** The first failing file ends the run: nothing of the later files is touched. *)
@@ -127,14 +128,265 @@ Theorem C09_exactly_once_prefix :
   exists E, E <= length (plan all) /\ journal (all_events hash outs) = firstn E (plan all).
 Proof. exact (once_prefix_full hash heq HS heq_spec full full_sorted). Qed.
 
+(** ** the same over the STORE CONTRACT (M-STORE-TX, Exec/StoreTxModel.v)
+
+    [m_history] = successive `atlas migrate apply [n] --tx-mode none` runs as the
+    CLI performs them: ReadRevisions twice, then per file [driverFor] /
+    [ReadRevision] / [Execute] over the Ent store model, where every revisions
+    SELECT, every upsert and every statement pops the fault stream (a failing
+    SELECT ends the run before anything is written; an upsert overwrites the
+    row or, failing, leaves it). The database is [sdb]: the journal of the
+    statements whose effect is in it, and the revision table. Directory [full]
+    without txmode directives, any count and any fault stream per run.
+
+    3-store. Resume: the DATABASE's journal after any history is the plan up to
+    [E] in order, statement i executed [1 + reps[i]] times in a row, the repeats
+    bounded by the failed upserts directly after a statement; the stored
+    revisions claim the plan up to [P], [P <= E <= P + 1]. *)
+Theorem C09_resume_store :
+  forall rs : list m_run, Forall (mrun_on full) rs ->
+  let outs := m_history hash heq HS rs (mkSdb [] []) in
+  exists P E reps,
+    P <= E /\ E <= P + 1 /\ E <= length (plan all) /\ length reps = E /\
+    s_journal (m_final hash outs (mkSdb [] [])) = expand (firstn E (plan all)) reps /\
+    journal (m_events hash outs) = s_journal (m_final hash outs (mkSdb [] [])) /\
+    list_sum reps <= m_wf hash outs /\
+    claimed_plan hash all (s_tbl (m_final hash outs (mkSdb [] []))) = firstn P (plan all).
+Proof. exact (resume_store_full hash heq HS heq_spec full full_sorted). Qed.
+
+(** 1-store. Never overclaims, at any cut of the calls that reached the database. *)
+Theorem C09_never_overclaims_store :
+  forall rs : list m_run, Forall (mrun_on full) rs ->
+  forall pre post, m_events hash (m_history hash heq HS rs (mkSdb [] [])) = pre ++ post ->
+  exists P E reps,
+    P <= E /\ E <= P + 1 /\ E <= length (plan all) /\ length reps = E /\
+    journal pre = expand (firstn E (plan all)) reps /\
+    claimed_plan hash all (tbl_of_events hash pre []) = firstn P (plan all) /\
+    (forall r, In r (tbl_of_events hash pre []) ->
+       exists f, In f all /\ claim_ok hash HS f r (r_applied r) /\ r_total r = length (f_stmts f)).
+Proof. exact (never_overclaims_store_full hash heq HS heq_spec full full_sorted). Qed.
+
 End Hist.
 
+Print Assumptions C09_resume_store.
+Print Assumptions C09_never_overclaims_store.
+
+(** ** ... and for directories WITH per-file `atlas:txmode` directives, under
+    --tx-mode none | file (goal: the run theorems with [mode_for] per file).
+
+    [tfull]: the directory, every file with its directive (none / `none` /
+    `file` / an invalid one: then the run stops there with an error); files
+    strictly sorted by version, checkpoint files allowed. Every run has its own
+    global mode (none or file), count and fault stream. A file whose effective
+    mode is `none` runs on the connection (what ran stays); any other file runs
+    in its own transaction, committed when Execute succeeds and rolled back
+    (statements AND revision writes) when it fails. After ANY such history the
+    COMMITTED database satisfies the resume statement: its journal is the plan up
+    to [E], in order, statement i executed [1 + reps[i]] times in a row, the
+    repeats bounded by the failed upserts directly after a statement; its
+    revisions claim the plan up to [P], [P <= E <= P + 1] -- so the next run
+    continues at the first statement that is not recorded and never claims more
+    than was executed. *)
+Theorem C09_resume_store_directives :
+  forall (hash : Type) (heq : hash -> hash -> bool) (HS : bytes -> hash),
+  (forall a b, heq a b = true <-> a = b) ->
+  forall tfull : list tfile, sorted_files (map tf_file tfull) ->
+  forall rs : list m_run, Forall (mrun_dir_on tfull) rs ->
+  let all := from_last_ckpt (map tf_file tfull) in
+  let outs := m_history hash heq HS rs (mkSdb [] []) in
+  exists P E reps,
+    P <= E /\ E <= P + 1 /\ E <= length (plan all) /\ length reps = E /\
+    s_journal (m_final hash outs (mkSdb [] [])) = expand (firstn E (plan all)) reps /\
+    list_sum reps <= m_wf hash outs /\
+    claimed_plan hash all (s_tbl (m_final hash outs (mkSdb [] []))) = firstn P (plan all).
+Proof. exact resume_store_dir_full. Qed.
+Print Assumptions C09_resume_store_directives.
+
+(** ... and with ANY --tx-mode per run (none | file | all). Under --tx-mode all
+    the chosen files run in ONE transaction ([driverFor] re-uses the open one,
+    [mayCommit] does nothing), committed by [mux.commit()] after the loop when
+    every file succeeded and discarded otherwise (a file directive other than the
+    global mode is an error there). Same conclusion for the committed database
+    after any history in which every run picks its own mode, count and faults. *)
+Theorem C09_resume_store_any_mode :
+  forall (hash : Type) (heq : hash -> hash -> bool) (HS : bytes -> hash),
+  (forall a b, heq a b = true <-> a = b) ->
+  forall tfull : list tfile, sorted_files (map tf_file tfull) ->
+  forall rs : list m_run, Forall (mrun_any_on tfull) rs ->
+  let all := from_last_ckpt (map tf_file tfull) in
+  let outs := m_history hash heq HS rs (mkSdb [] []) in
+  exists P E reps,
+    P <= E /\ E <= P + 1 /\ E <= length (plan all) /\ length reps = E /\
+    s_journal (m_final hash outs (mkSdb [] [])) = expand (firstn E (plan all)) reps /\
+    list_sum reps <= m_wf hash outs /\
+    claimed_plan hash all (s_tbl (m_final hash outs (mkSdb [] []))) = firstn P (plan all).
+Proof. exact resume_store_any_full. Qed.
+Print Assumptions C09_resume_store_any_mode.
+
+(** 3b/5-store. Completion over the store: after ANY such history (any
+    --tx-mode, count and fault stream per run; directives), one more run without
+    faults and without a count under any --tx-mode whose directives are valid
+    for that mode (under --tx-mode all: no directive) completes the migration: the database's journal is the
+    WHOLE plan (repeats bounded by the failed upserts directly after a statement),
+    every file's stored revision has Applied = Total = its statement count, and
+    Pending has nothing to do. *)
+Theorem C09_complete_marks_done_store :
+  forall (hash : Type) (heq : hash -> hash -> bool) (HS : bytes -> hash),
+  (forall a b, heq a b = true <-> a = b) ->
+  forall tfull : list tfile, sorted_files (map tf_file tfull) ->
+  forall (rs : list m_run) (g : mode), Forall (mrun_any_on tfull) rs ->
+  (forall tf, In tf tfull -> mode_for g tf <> None) ->
+  let all := from_last_ckpt (map tf_file tfull) in
+  let outs := m_history hash heq HS (rs ++ [mkMRun g 0 tfull []]) (mkSdb [] []) in
+  let Dn := m_final hash outs (mkSdb [] []) in
+  (exists reps, length reps = length (plan all) /\
+                s_journal Dn = expand (plan all) reps /\ list_sum reps <= m_wf hash outs) /\
+  (forall f, In f all -> exists r, tbl_get (s_tbl Dn) (f_version f) = Some r /\
+                                   r_applied r = length (f_stmts f) /\ r_total r = length (f_stmts f)) /\
+  (forall c', cfg_ok c' -> pending c' (map tf_file tfull) (read_revisions hash (s_tbl Dn)) = (PNoPending, None)).
+Proof. exact complete_store_any_full. Qed.
+Print Assumptions C09_complete_marks_done_store.
+
+(** 4-store. Exactly once over the store: if no revisions upsert fails in any
+    run (statements and revisions SELECTs may fail anywhere and any number of
+    times, transactions may be rolled back, any --tx-mode per run), then after
+    the completing run the database's journal IS the plan. *)
+Theorem C09_exactly_once_store :
+  forall (hash : Type) (heq : hash -> hash -> bool) (HS : bytes -> hash),
+  (forall a b, heq a b = true <-> a = b) ->
+  forall tfull : list tfile, sorted_files (map tf_file tfull) ->
+  forall (rs : list m_run) (g : mode), Forall (mrun_any_on tfull) rs ->
+  (forall tf, In tf tfull -> mode_for g tf <> None) ->
+  let outs := m_history hash heq HS (rs ++ [mkMRun g 0 tfull []]) (mkSdb [] []) in
+  (forall out r, In out outs -> ~ In (EWrite r false) (snd out)) ->
+  s_journal (m_final hash outs (mkSdb [] [])) = plan (from_last_ckpt (map tf_file tfull)).
+Proof. exact exactly_once_store_any_full. Qed.
+Print Assumptions C09_exactly_once_store.
 Print Assumptions C09_stop_on_fault.
 Print Assumptions C09_never_overclaims.
 Print Assumptions C09_resume.
 Print Assumptions C09_complete_marks_done.
 Print Assumptions C09_exactly_once.
 Print Assumptions C09_exactly_once_prefix.
+
+(** ** a reused [Executor] value (M-REUSE, Exec/ReuseModel.v)
+
+    [ExecuteTo] is the one method that assigns the executor's [dir] field (for a
+    version before a checkpoint file it runs [e.Pending] over a truncated
+    in-memory directory). For EVERY executor (options, directory), version,
+    revision table and fault stream -- whatever [ExecuteTo] returns: version not
+    found, the inner Pending fails (nothing pending, MissingMigrationError,
+    non-linear history, not clean, baseline), a statement or a write fails, or
+    success -- the executor it leaves is the executor it found. Hence any session
+    of ExecuteN / ExecuteTo / Pending calls on ONE executor value observes, call
+    by call (outcome, every ExecContext / WriteRevision event, revision table),
+    what the same calls observe when each is made on a new executor over the
+    same directory; and the [ExecuteN] after an [ExecuteTo] is the [execute_n]
+    of the theorems above on the executor's own directory. *)
+Theorem C09_executor_reuse :
+  forall (hash : Type) (heq : hash -> hash -> bool) (HS : bytes -> hash) (e : executor),
+  (forall v (t : list (rev hash)) fs,
+     snd (fst (fst (fst (execute_to hash heq HS e v t fs)))) = e) /\
+  (forall ops (t : list (rev hash)),
+     session hash heq HS (execute_to hash heq HS) e ops t =
+     session_fresh hash heq HS (execute_to hash heq HS) e ops t) /\
+  (forall v (t : list (rev hash)) fs n fs2,
+     let '(_, e', t', _, _) := execute_to hash heq HS e v t fs in
+     execute_n_of hash heq HS e' n t' fs2 = execute_n hash heq HS (e_cfg e) n (e_dir e) t' fs2).
+Proof.
+  intros hash heq HS e. split; [|split].
+  - intros v t fs. apply execute_to_restores.
+  - intros ops t. apply session_reuse_fresh.
+  - intros v t fs n fs2. apply execute_n_after_execute_to.
+Qed.
+Print Assumptions C09_executor_reuse.
+
+(** [ExecuteTo(v)] is [ExecuteN] with a count: for a version before a checkpoint
+    file it is [ExecuteN(0)] over the directory truncated after [v] (and the
+    executor is left as it was); otherwise it is [ExecuteN(i+1)] over the
+    executor's directory, [i] = position of [v] among the pending files -- and
+    when [v] is not among the pending files no statement is executed. So every
+    ExecuteTo call is a [run] of the history theorems above (any count). *)
+Theorem C09_execute_to_before_checkpoint :
+  forall (hash : Type) (heq : hash -> hash -> bool) (HS : bytes -> hash)
+         (e : executor) v (t : list (rev hash)) fs idx,
+  files_last_index (version_is v) (e_dir e) = Some idx ->
+  existsb f_ckpt (skipn (S idx) (e_dir e)) = true ->
+  execute_to hash heq HS e v t fs =
+  as_run hash e (execute_n hash heq HS (e_cfg e) 0 (firstn (S idx) (e_dir e)) t fs).
+Proof. exact execute_to_before_checkpoint. Qed.
+Print Assumptions C09_execute_to_before_checkpoint.
+
+Theorem C09_execute_to_bounded :
+  forall (hash : Type) (heq : hash -> hash -> bool) (HS : bytes -> hash)
+         (e : executor) v (t : list (rev hash)) fs idx,
+  files_last_index (version_is v) (e_dir e) = Some idx ->
+  existsb f_ckpt (skipn (S idx) (e_dir e)) = false ->
+  match fst (pending_of hash e t) with
+  | PFiles files =>
+      match files_last_index (version_is v) files with
+      | Some i => execute_to hash heq HS e v t fs = as_run hash e (execute_n_of hash heq HS e (S i) t fs)
+      | None =>
+          let '(o, e', t', _, es) := execute_to hash heq HS e v t fs in
+          e' = e /\ exec_events es = [] /\ (o = TNotFound \/ o = TRun (RPend PWriteErr))
+      end
+  | _ => execute_to hash heq HS e v t fs = as_run hash e (execute_n_of hash heq HS e 0 t fs)
+  end.
+Proof. exact execute_to_bounded. Qed.
+Print Assumptions C09_execute_to_bounded.
+
+(** non-vacuity, and why the restore on the ERROR path matters: directory
+    1, 2 (checkpoint), 3 (two statements). ExecuteN(0) on a fresh database runs
+    2 and 3; the second statement of 3 fails. ExecuteTo("1") -- a version before
+    the checkpoint -- swaps the directory for [1]; the inner Pending fails
+    (revision 3 is partial and not in [1]: MissingMigrationError). The next
+    ExecuteN(0) resumes file 3 at its second statement. With [execute_to_leaky]
+    (the restore moved below `if err != nil { return err }`) the same executor
+    keeps the truncated directory and the next ExecuteN fails instead. *)
+Definition ru_f1 : file := mkFile [49%N] [[65%N]] false.
+Definition ru_f2 : file := mkFile [50%N] [[66%N]] true.
+Definition ru_f3 : file := mkFile [51%N] [[67%N]; [68%N]] false.
+Definition ru_e : executor := mkExecutor (mkCfg Linear None false false) [ru_f1; ru_f2; ru_f3].
+Definition ru_ops : list op :=
+  [ OpN 0 [false; false; false; false; false; false; false; true]; OpTo [49%N] []; OpN 0 []; OpPending ].
+Definition ru_show (r : op_result bytes) : to_outcome * list (bytes * bytes) :=
+  match r with
+  | ResRun _ o _ es => (o, journal es)
+  | ResPending _ p _ => (TRun (RPend p), [])
+  end.
+
+Example C09_executor_reuse_nonvacuous :
+  map ru_show (session bytes bytes_eqb (fun b => b) (execute_to bytes bytes_eqb (fun b => b)) ru_e ru_ops []) =
+  [ (TRun (RExec OStmtErr), [([50%N], [66%N]); ([51%N], [67%N])]);
+    (TRun (RPend (PMissing [51%N])), []);
+    (TRun (RExec ODone), [([51%N], [68%N])]);
+    (TRun (RPend PNoPending), []) ].
+Proof. vm_compute. reflexivity. Qed.
+
+Example C09_executor_reuse_needs_restore :
+  let leaky := execute_to_leaky bytes bytes_eqb (fun b => b) in
+  map ru_show (session bytes bytes_eqb (fun b => b) leaky ru_e ru_ops []) =
+  [ (TRun (RExec OStmtErr), [([50%N], [66%N]); ([51%N], [67%N])]);
+    (TRun (RPend (PMissing [51%N])), []);
+    (TRun (RPend (PMissing [51%N])), []);          (* the half-applied file is NOT resumed *)
+    (TRun (RPend (PMissing [51%N])), []) ] /\
+  session bytes bytes_eqb (fun b => b) leaky ru_e ru_ops [] <>
+  session_fresh bytes bytes_eqb (fun b => b) leaky ru_e ru_ops [].
+Proof. split; [vm_compute; reflexivity|]. vm_compute. intros H. discriminate H. Qed.
+
+Example C09_execute_to_nonvacuous :
+  (* "1" lies before the checkpoint file 2: the premises of C09_execute_to_before_checkpoint hold, file 1 runs *)
+  files_last_index (version_is [49%N]) (e_dir ru_e) = Some 0 /\
+  existsb f_ckpt (skipn 1 (e_dir ru_e)) = true /\
+  (let '(o, _, _, _, es) := execute_to bytes bytes_eqb (fun b => b) ru_e [49%N] [] [] in (o, journal es))
+    = (TRun (RExec ODone), [([49%N], [65%N])]) /\
+  (* "3" is the second pending file of a fresh database (pending = 2, 3): ExecuteN(2) *)
+  files_last_index (version_is [51%N]) (e_dir ru_e) = Some 2 /\
+  existsb f_ckpt (skipn 3 (e_dir ru_e)) = false /\
+  fst (pending_of bytes ru_e []) = PFiles [ru_f2; ru_f3] /\
+  (let '(o, _, _, _, es) := execute_to bytes bytes_eqb (fun b => b) ru_e [51%N] [] [] in (o, journal es))
+    = (TRun (RExec ODone), [([50%N], [66%N]); ([51%N], [67%N]); ([51%N], [68%N])]).
+Proof. vm_compute. repeat split; reflexivity. Qed.
 
 (** ** a history that leaves the linear regime: --exec-order non-linear
 
@@ -187,6 +439,110 @@ Definition ex_runs : list run :=
   [ mkRun ex_cfg 0 ex_all [false; false; true];
     mkRun ex_cfg 0 ex_all [false; false; false; false; false; false; false; true];
     mkRun ex_cfg 0 ex_all [] ].
+
+(** the store: run 1: the upsert after statement A fails; run 2: the first
+    revisions SELECT fails (nothing happens); run 3: statement C fails; run 4 clean.
+    Calls of a run: ReadRevisions x2, then per file ReadRevision, upsert,
+    (statement, upsert)*, upsert. *)
+Definition st_runs : list m_run :=
+  let F := false in let T := true in
+  [ mkMRun TxNone 0 (map plain ex_all) [F; F; F; F; F; T];
+    mkMRun TxNone 0 (map plain ex_all) [T];
+    mkMRun TxNone 0 (map plain ex_all) [F; F; F; F; F; F; F; F; F; F; F; T];
+    mkMRun TxNone 0 (map plain ex_all) [] ].
+
+Example C09_resume_store_nonvacuous :
+  Forall (mrun_on ex_all) st_runs /\
+  let outs := m_history bytes bytes_eqb (fun b => b) st_runs (mkSdb [] []) in
+  let D := m_final bytes outs (mkSdb [] []) in
+  map (fun x => fst (fst x)) outs =
+    [XRun (MFail (SExec OWriteErr)); XReadErr; XRun (MFail (SExec OStmtErr)); XRun MDone] /\
+  map snd (s_journal D) = [[65%N]; [65%N]; [66%N]; [67%N]; [68%N]] /\
+  s_journal D = expand (plan ex_all) [1; 0; 0; 0] /\
+  m_wf bytes outs = 1 /\
+  claimed_plan bytes (from_last_ckpt ex_all) (s_tbl D) = plan ex_all.
+Proof. split; [repeat constructor|]. vm_compute. repeat split; reflexivity. Qed.
+
+(** a cut inside run 1 of the store history, after statement A ran and before its upsert. *)
+Example C09_never_overclaims_store_nonvacuous :
+  let evs := m_events bytes (m_history bytes bytes_eqb (fun b => b) st_runs (mkSdb [] [])) in
+  let pre := firstn 2 evs in
+  journal pre = [([49%N], [65%N])] /\ claimed_plan bytes ex_all (tbl_of_events bytes pre []) = [].
+Proof. vm_compute. split; reflexivity. Qed.
+
+(** directives: file 1 carries `txmode file`, file 2 none.
+    run 1 (--tx-mode none): statement B of file 1 fails inside its transaction: rolled back, nothing stays;
+    run 2 (--tx-mode file): file 1 commits; the upsert after statement C fails inside file 2's transaction: rolled back;
+    run 3 (--tx-mode none): file 2 on the connection, the upsert after C fails: C stays, unrecorded;
+    run 4: C is executed again (the one allowed repeat), then D. *)
+Definition dx_dir : list tfile :=
+  [ mkTfile (mkFile [49%N] [[65%N]; [66%N]] false) (Some (Some TxFile)) None;
+    plain (mkFile [50%N] [[67%N]; [68%N]] false) ].
+Definition dx_runs : list m_run :=
+  let F := false in let T := true in
+  [ mkMRun TxNone 0 dx_dir [F; F; F; F; F; F; T];
+    mkMRun TxFile 0 dx_dir [F; F; F; F; F; F; F; F; F; F; F; F; T];
+    mkMRun TxNone 0 dx_dir [F; F; F; F; F; T];
+    mkMRun TxNone 0 dx_dir [] ].
+
+Example C09_resume_store_directives_nonvacuous :
+  sorted_files (map tf_file dx_dir) /\ Forall (mrun_dir_on dx_dir) dx_runs /\
+  let outs := m_history bytes bytes_eqb (fun b => b) dx_runs (mkSdb [] []) in
+  map (fun x => (fst (fst x), map snd (s_journal (snd (fst x))),
+                 map (fun r => (r_applied r, r_total r)) (s_tbl (snd (fst x))))) outs =
+  [ (XRun (MFail (SExec OStmtErr)), [], []);
+    (XRun (MFail (SExec OWriteErr)), [[65%N]; [66%N]], [(2, 2)]);
+    (XRun (MFail (SExec OWriteErr)), [[65%N]; [66%N]; [67%N]], [(2, 2); (0, 2)]);
+    (XRun MDone, [[65%N]; [66%N]; [67%N]; [67%N]; [68%N]], [(2, 2); (2, 2)]) ] /\
+  m_wf bytes outs = 2.
+Proof.
+  split; [unfold sorted_files, fver_lt; repeat constructor|].
+  split; [repeat constructor; discriminate|]. vm_compute. split; reflexivity.
+Qed.
+
+(** --tx-mode all: statement C (file 2) fails: the one transaction is discarded, nothing stays;
+    the next run under --tx-mode all commits everything at the end. *)
+Definition ax_runs : list m_run :=
+  let F := false in let T := true in
+  [ mkMRun TxAll 0 (map plain ex_all) [F; F; F; F; F; F; F; F; F; F; F; T];
+    mkMRun TxAll 0 (map plain ex_all) [] ].
+
+Example C09_resume_store_any_mode_nonvacuous :
+  Forall (mrun_any_on (map plain ex_all)) ax_runs /\
+  let outs := m_history bytes bytes_eqb (fun b => b) ax_runs (mkSdb [] []) in
+  map (fun x => (fst (fst x), map snd (s_journal (snd (fst x))),
+                 map (fun r => (r_applied r, r_total r)) (s_tbl (snd (fst x))))) outs =
+  [ (XRun (MFail (SExec OStmtErr)), [], []);
+    (XRun MDone, [[65%N]; [66%N]; [67%N]; [68%N]], [(2, 2); (2, 2)]) ].
+Proof. split; [repeat constructor|]. vm_compute. reflexivity. Qed.
+
+(** the history [dx_runs] above is three faulty runs followed by exactly such a clean run *)
+Example C09_complete_marks_done_store_nonvacuous :
+  firstn 3 dx_runs ++ [mkMRun TxNone 0 dx_dir []] = dx_runs /\
+  Forall (mrun_any_on dx_dir) (firstn 3 dx_runs) /\
+  forallb (fun tf => match mode_for TxNone tf with Some _ => true | None => false end) dx_dir = true /\
+  let Dn := m_final bytes (m_history bytes bytes_eqb (fun b => b) dx_runs (mkSdb [] [])) (mkSdb [] []) in
+  map (fun r => (r_applied r, r_total r)) (s_tbl Dn) = [(2, 2); (2, 2)] /\
+  s_journal Dn = expand (plan (map tf_file dx_dir)) [0; 0; 1; 0] /\
+  fst (pending ex_cfg (map tf_file dx_dir) (read_revisions bytes (s_tbl Dn))) = PNoPending.
+Proof. split; [reflexivity|]. split; [repeat constructor|]. vm_compute. repeat split; reflexivity. Qed.
+
+(** only statements and a SELECT fail (run 1: statement B inside file 1's transaction, rolled back;
+    run 2: the SELECT of file 2's revision; run 3: statement D on the connection): every statement once. *)
+Definition ox_runs : list m_run :=
+  let F := false in let T := true in
+  [ mkMRun TxNone 0 dx_dir [F; F; F; F; F; F; T];
+    mkMRun TxNone 0 dx_dir [F; F; F; F; F; F; F; F; F; T];
+    mkMRun TxNone 0 dx_dir [F; F; F; F; F; F; T] ].
+
+Example C09_exactly_once_store_nonvacuous :
+  Forall (mrun_any_on dx_dir) ox_runs /\
+  let outs := m_history bytes bytes_eqb (fun b => b) (ox_runs ++ [mkMRun TxNone 0 dx_dir []]) (mkSdb [] []) in
+  map (fun x => fst (fst x)) outs =
+    [XRun (MFail (SExec OStmtErr)); XRun (MFail SReadErr); XRun (MFail (SExec OStmtErr)); XRun MDone] /\
+  forallb (fun out => forallb (fun e => match e with EWrite _ false => false | _ => true end) (snd out)) outs = true /\
+  s_journal (m_final bytes outs (mkSdb [] [])) = plan (map tf_file dx_dir).
+Proof. split; [repeat constructor|]. vm_compute. repeat split; reflexivity. Qed.
 
 Example C09_stop_nonvacuous :
   fst (fst (fst (execute bytes bytes_eqb (fun b => b) (mkFile [49%N] [[65%N]] false) [] [false; true]))) = OStmtErr.
